@@ -89,20 +89,58 @@ class HistObs(list):
     """observation of a history (one entry per call pair)"""
 
 
-def run_chist(c):
-    """ONE composite over the same source objects; their answers change between the calls"""
-    glog, flog = [], []
-    n = len(c["steps"][0]["srcs"])
-    srcs = [Recording(i, None, None, glog, flog) for i in range(n)]
-    comp = DS.get_composite_data_source(srcs, merge_lists=c["ml"], merge_sets=c["ms"])
+def run_steps(comps, srcs, glog, flog, steps):
     out = []
-    for st in c["steps"]:
+    for st in steps:
         for r, s in zip(srcs, st["srcs"]):
             r.set(s)
         del glog[:], flog[:]
-        gres, fres = call_pair(comp, st)
+        gres, fres = call_pair(comps[st.get("comp", 0) % len(comps)], st)
         out.append((list(glog), gres, list(flog), fres))
-    return HistObs(out)
+    return out
+
+
+def run_chist(c):
+    """ONE composite (or two composites over the same source objects, used alternately); the sources' answers change
+    between the calls"""
+    glog, flog = [], []
+    n = len(c["steps"][0]["srcs"])
+    srcs = [Recording(i, None, None, glog, flog) for i in range(n)]
+    comps = [DS.get_composite_data_source(srcs, merge_lists=c["ml"], merge_sets=c["ms"]) for _ in range(c.get("ncomp", 1))]
+    return HistObs(run_steps(comps, srcs, glog, flog, c["steps"]))
+
+
+class BuildObs(tuple):
+    """(construction attempts, call pairs)"""
+
+
+_build_seq = [0]
+
+
+def run_build(c):
+    """a composite built from (name, config) descriptions; creating constituent j raises the first fails[j] times;
+    the caller retries the construction and then uses the composite"""
+    import vfsrc.rec as R
+    glog, flog = [], []
+    n = len(c["fails"])
+    srcs = [Recording(i, None, None, glog, flog) for i in range(n)]
+    _build_seq[0] += 1
+    key = "b%d" % _build_seq[0]
+    R.REGISTRY[key] = {"fails": list(c["fails"]), "exc": RAISES[c["fexc"]], "sources": srcs, "attempts": []}
+    try:
+        cons, comp = [], None
+        for _ in range(c["tries"]):
+            try:
+                comp = DS.get_composite_data_source([("vfsrc.rec", {"reg": key, "idx": j}) for j in range(n)],
+                                                    merge_lists=c["ml"], merge_sets=c["ms"])
+                cons.append(0)
+                break
+            except Exception as e:     # noqa: BLE001
+                cons.append(exc_code(e))
+        steps = run_steps([comp], srcs, glog, flog, c["steps"]) if comp is not None else []
+        return BuildObs((cons, steps))
+    finally:
+        del R.REGISTRY[key]
 
 
 def hash_table(c, t=None):
@@ -158,6 +196,8 @@ def norm_obs(kind, x):
         return [norm_res(x[0]), norm_res(x[1])]
     if kind == "chist":
         return [norm_step(o) for o in x]
+    if kind == "build":
+        return [x[0], [norm_step(o) for o in x[1]]]
     if kind == "merge":
         return [norm_res(x[0]), norm(x[1]), norm(x[2])]
     return norm_step(x)
@@ -168,7 +208,9 @@ class C13(Check):
     technique = ("Coq proofs about a Gallina model of _merge_data_trees / _CompositeDataSource / aggregate_version "
                  "(merge_lookup_spec, identities, idempotence, composite = fold with exact source arguments, "
                  "first non-None, version injectivity) + differential correspondence with the real functions")
-    rule = ("histories: 3-5 call pairs on ONE composite whose sources change data/version, start or stop raising "
+    rule = ("construction of a composite from (name, config) descriptions where creating one constituent fails the first "
+            "k times, retried, then used; failing operations in the middle of a history (merge TypeError, source raising) "
+            "followed by the identical call and by recovery, on one or two composites over the same sources; histories: 3-5 call pairs on ONE composite whose sources change data/version, start or stop raising "
             "(get_data and find_system) between the calls; special values (None/0/''/b''/False/{}/[]/()/set()/non-ASCII/"
             "huge) in every value position and as keys; assoc cases: every triple of dict trees up to 2 nodes and random triples up to 3 nodes / random deeper trees, "
             "both groupings through the real merge_data_trees compared incl. the exception class; merge cases: every ordered pair of dict trees over {None,0,1,'x',b'x',[],(),set(),{}} and nested "
@@ -199,7 +241,7 @@ class C13(Check):
         # one common key, every pair of values up to 3 nodes
         vs = [v for n in (1, 2, 3) for v in pyval.vals(n)]
         pairs = [(x, y) for x in vs for y in vs]
-        pairs = rng.sample(pairs, 6000 if tier == "quick" else 60000)
+        pairs = rng.sample(pairs, 4500 if tier == "quick" else 60000)
         for x, y in pairs:
             for ml, ms in flags:
                 yield {"kind": "merge", "a": {"a": pyval.thaw(x)}, "b": {"a": pyval.thaw(y)}, "ml": ml, "ms": ms}
@@ -218,7 +260,7 @@ class C13(Check):
             for ml, ms in flags:
                 yield {"kind": "assoc", "a": a, "b": b, "c": c, "ml": ml, "ms": ms}
         mid = [pyval.thaw(t) for n in (1, 2, 3) for t in pyval.trees(n)]
-        for i in range(4000 if tier == "quick" else 150000):
+        for i in range(3000 if tier == "quick" else 150000):
             if i % 4 == 0:
                 a, b, c = (pyval.rand_tree(rng, 3, keys=("a", "b", 1)) for _ in range(3))
             else:
@@ -236,7 +278,8 @@ class C13(Check):
                 for ml, ms in flags[1:3]:
                     yield {"kind": "merge", "a": {k: x, "z": {k: x}}, "b": {"z": {k: [2]}, k: {}}, "ml": ml, "ms": ms}
         # histories on ONE composite: a source changes its answer (or starts / stops failing) between calls
-        hmenu = [{"a": 1}, {"a": 2, "b": [1]}, {"b": [2]}, {}, {"c": {"d": 1}}, {"a": None}, {"a": 0, "b": []}]
+        hmenu = [{"a": 1}, {"a": 2, "b": [1]}, {"b": [2]}, {}, {"c": {"d": 1}}, {"a": None}, {"a": 0, "b": []},
+                 {"c": 5}, {"a": {"x": 1}}, {"b": {"y": 1}}]
         for n in (2, 3):
             for _ in range(60 if tier == "quick" else 1500):
                 cur = [{"data": rng.choice(hmenu), "ver": "v%d" % j, "exc": None, "find": rng.choice([None, None, "sys%d" % j, ""]),
@@ -244,7 +287,7 @@ class C13(Check):
                 steps = []
                 sysid, pd, pv = rng.choice(["s1", ""]), rng.choice([{}, {"a": 0}]), rng.choice(["", "p0"])
                 for k in range(rng.randrange(3, 6)):
-                    if k >= 1 and rng.random() < 0.8:
+                    if k >= 1 and rng.random() < 0.65:
                         j = rng.randrange(n)
                         r = rng.random()
                         if r < 0.55:
@@ -257,7 +300,55 @@ class C13(Check):
                             cur[j] = dict(cur[j], find=rng.choice([None, "other", ""]), fexc=None)
                     steps.append({"srcs": [dict(x) for x in cur], "sys": sysid, "pd": pd, "pv": pv, "fk": "mac", "fv": "02:00"})
                 ml, ms = rng.choice(flags)
-                yield {"kind": "chist", "ml": ml, "ms": ms, "steps": steps}
+                ncomp = rng.choice([1, 1, 2])
+                for i, st in enumerate(steps):
+                    st["comp"] = rng.randrange(ncomp)
+                yield {"kind": "chist", "ml": ml, "ms": ms, "steps": steps, "ncomp": ncomp}
+        # a failing operation in the middle of a history leaves no trace: call 1 succeeds, then a source changes so that
+        # the call fails (a scalar meets a mapping / a flagged list or set meets another kind / the source raises from
+        # get_data / from find_system), the identical call is repeated, then the source heals; one or two composites
+        okd = [{"a": {"x": 1}, "b": [1], "s": {1}}, {"a": {"y": 2}}, {}]
+        bad = [("data", {"a": 5}), ("data", {"b": {"z": 1}}), ("data", {"s": [1]}), ("exc", 6), ("exc", 4), ("fexc", 6), ("fexc", 5)]
+        for n in (2, 3):
+            for pos in range(n):
+                for what, val in bad:
+                    for ncomp in (1, 2):
+                        base = [{"data": okd[j % len(okd)], "ver": "v%d" % j, "exc": None, "find": None if j < n - 1 else "last",
+                                 "fexc": None} for j in range(n)]
+                        broken = [dict(x) for x in base]
+                        if what == "data":
+                            broken[pos] = dict(broken[pos], data=val, ver="w%d" % pos)
+                        elif what == "exc":
+                            broken[pos] = dict(broken[pos], exc=val)
+                        else:
+                            broken[pos] = dict(broken[pos], fexc=val)
+                        healed = [dict(x) for x in base]
+                        healed[pos] = dict(healed[pos], ver="h%d" % pos)
+                        seq = [base, base, broken, broken, healed, broken, base]
+                        steps = [{"srcs": [dict(x) for x in srcs], "sys": "s1", "pd": {}, "pv": "p0", "fk": "mac", "fv": "02:00",
+                                  "comp": (i % ncomp)} for i, srcs in enumerate(seq)]
+                        yield {"kind": "chist", "ml": True, "ms": True, "steps": steps, "ncomp": ncomp}
+        # construction from (name, config) descriptions with a constituent that cannot be created at first
+        for n in (1, 2, 3):
+            for pos in range(n):
+                for k in (1, 2):
+                    for fexc in (6, 4):
+                        fails = [0] * n
+                        fails[pos] = k
+                        base = [{"data": {"k%d" % j: j, "a": {"x%d" % j: j}}, "ver": "v%d" % j, "exc": None,
+                                 "find": "sys%d" % j if j == pos else None, "fexc": None} for j in range(n)]
+                        steps = [{"srcs": [dict(x) for x in base], "sys": "s1", "pd": {}, "pv": "", "fk": "mac", "fv": 1}
+                                 for _ in range(3)]
+                        for tries in (1, k, k + 1):
+                            yield {"kind": "build", "ml": False, "ms": True, "fails": fails, "fexc": fexc, "tries": tries, "steps": steps}
+        for _ in range(40 if tier == "quick" else 800):
+            n = rng.randrange(1, 4)
+            fails = [rng.choice([0, 0, 1, 2]) for _ in range(n)]
+            cur = [{"data": rng.choice(hmenu), "ver": "v%d" % j, "exc": None, "find": rng.choice([None, "sys%d" % j]), "fexc": None}
+                   for j in range(n)]
+            steps = [{"srcs": [dict(x) for x in cur], "sys": "s1", "pd": {}, "pv": "", "fk": "mac", "fv": 1} for _ in range(3)]
+            yield {"kind": "build", "ml": rng.random() < 0.5, "ms": True, "fails": fails, "fexc": rng.choice([6, 4, 5]),
+                   "tries": rng.randrange(1, 5), "steps": steps}
         # chains
         menu = [{"a": 1}, {"a": 2, "b": [1]}, {"b": [2, 1]}, {"c": {"d": 1}}, {"c": {"e": {1}}}, {"c": 5}, {}, {"a": {"x": None}}]
         n_ex = 0
@@ -304,6 +395,8 @@ class C13(Check):
             return run_merge(c["a"], c["b"], c["ml"], c["ms"])
         if c["kind"] == "chist":
             return run_chist(c)
+        if c["kind"] == "build":
+            return run_build(c)
         return run_chain(c)
 
     def enc_obs(self, c, o):
@@ -314,6 +407,8 @@ class C13(Check):
             return [enc_res_tree(r), enc(a1), enc(b1)]
         if c["kind"] == "chist":
             return [enc_step_obs(x) for x in o]
+        if c["kind"] == "build":
+            return [list(o[0]), [enc_step_obs(x) for x in o[1]]]
         return enc_step_obs(o)
 
     def line(self, c, o):
@@ -321,12 +416,14 @@ class C13(Check):
             return sx([2, c["ml"], c["ms"], enc(c["a"]), enc(c["b"]), enc(c["c"]), self.enc_obs(c, o)])
         if c["kind"] == "merge":
             return sx([0, c["ml"], c["ms"], enc(c["a"]), enc(c["b"]), self.enc_obs(c, o)])
-        if c["kind"] == "chist":
+        if c["kind"] in ("chist", "build"):
             ht = []
             for st in c["steps"]:
                 hash_table(st, ht)
             steps = [[[enc_src(s) for s in st["srcs"]], st["sys"], enc(st["pd"]), st["pv"], st["fk"], enc(st["fv"])]
                      for st in c["steps"]]
+            if c["kind"] == "build":
+                return sx([4, c["ml"], c["ms"], ht, list(c["fails"]), c["fexc"], c["tries"], steps, self.enc_obs(c, o)])
             return sx([3, c["ml"], c["ms"], ht, steps, self.enc_obs(c, o)])
         srcs = [enc_src(s) for s in c["srcs"]]
         return sx([1, c["ml"], c["ms"], hash_table(c), srcs, c["sys"], enc(c["pd"]), c["pv"], c["fk"], enc(c["fv"]),
@@ -348,7 +445,7 @@ class C13(Check):
 
     def canon(self, o):
         # the case kind is recoverable from the observation's arity
-        kind = "chist" if isinstance(o, HistObs) else {2: "assoc", 3: "merge"}.get(len(o), "chain")
+        kind = "build" if isinstance(o, BuildObs) else "chist" if isinstance(o, HistObs) else {2: "assoc", 3: "merge"}.get(len(o), "chain")
         c = {"kind": kind}
         return norm_obs(kind, unsx(sx(self.enc_obs(c, o))))
 
@@ -361,7 +458,7 @@ class C13(Check):
             if any(k in c["b"] for k in c["a"]):
                 return sx([enc(c["a"]), enc(c["b"]), c["ml"], c["ms"]])
             return None
-        if c["kind"] == "chist":
+        if c["kind"] in ("chist", "build"):
             return repr(c) if len(c["steps"]) >= 3 else None
         if len(c["srcs"]) >= 2:
             return repr(c)
@@ -374,8 +471,10 @@ class C13(Check):
         if c["kind"] == "merge":
             return {"kind": "merge", "a": pyval.show(c["a"]), "b": pyval.show(c["b"]),
                     "merge_lists": c["ml"], "merge_sets": c["ms"]}
-        if c["kind"] == "chist":
-            return {"kind": "history on one composite", "merge_lists": c["ml"], "merge_sets": c["ms"],
+        if c["kind"] in ("chist", "build"):
+            return {"kind": "history on one composite" if c["kind"] == "chist" else "composite built from (name, config) descriptions",
+                    "composites": c.get("ncomp", 1), "construction_failures_per_constituent": c.get("fails"),
+                    "construction_error": c.get("fexc"), "construction_attempts_allowed": c.get("tries"), "merge_lists": c["ml"], "merge_sets": c["ms"],
                     "steps": [dict(st, srcs=[dict(s, data=pyval.show(s["data"])) for s in st["srcs"]], pd=pyval.show(st["pd"]))
                               for st in c["steps"]]}
         d = dict(c)
@@ -385,7 +484,7 @@ class C13(Check):
         return d
 
     def shrink(self, c):
-        if c["kind"] == "chist":
+        if c["kind"] in ("chist", "build"):
             st = c["steps"]
             for i in range(len(st)):
                 if len(st) > 1:
@@ -393,7 +492,10 @@ class C13(Check):
             n = len(st[0]["srcs"])
             for j in range(n):
                 if n > 1:
-                    yield dict(c, steps=[dict(x, srcs=x["srcs"][:j] + x["srcs"][j + 1:]) for x in st])
+                    d = dict(c, steps=[dict(x, srcs=x["srcs"][:j] + x["srcs"][j + 1:]) for x in st])
+                    if c["kind"] == "build":
+                        d["fails"] = c["fails"][:j] + c["fails"][j + 1:]
+                    yield d
             return
         if c["kind"] in ("merge", "assoc"):
             for side in (("a", "b") if c["kind"] == "merge" else ("a", "b", "c")):
